@@ -181,6 +181,33 @@ func runC04(r *mc.Run) {
 			}
 		}
 		ti.TcbLevels = []world.Level{c04Level(p, q.tee, l1p, statuses[l1s])}
+		// the descriptive "category" / "type" members of components (Intel labels them "BIOS", "OS/VMM", "TDX Module",
+		// ...) play no part in the algorithm, whatever they say and wherever they stand
+		if lb := c.Choose("component-labels", 4); lb != 0 {
+			for li := range ti.TcbLevels {
+				l := &ti.TcbLevels[li]
+				l.Tcb.Sgx, l.Tcb.Tdx = append([]world.Comp(nil), l.Tcb.Sgx...), append([]world.Comp(nil), l.Tcb.Tdx...)
+				for k := range l.Tcb.Tdx {
+					switch lb {
+					case 1: // Intel's own pattern
+						if k < 2 {
+							l.Tcb.Tdx[k].Category, l.Tcb.Tdx[k].Type = "OS/VMM", "TDX Module"
+						} else {
+							l.Tcb.Tdx[k].Category, l.Tcb.Tdx[k].Type = "OS/VMM", "TDX Late Microcode Update"
+						}
+					case 2: // every component labelled as the module's
+						l.Tcb.Tdx[k].Category, l.Tcb.Tdx[k].Type = "OS/VMM", "TDX Module"
+					case 3: // labels in the wrong places, odd strings
+						l.Tcb.Tdx[k].Category, l.Tcb.Tdx[k].Type = []string{"", "TDX Module", "BIOS"}[k%3], []string{"TDX Module", "", "tdx module"}[(k+1)%3]
+					}
+				}
+				for k := range l.Tcb.Sgx {
+					if lb >= 2 {
+						l.Tcb.Sgx[k].Category, l.Tcb.Sgx[k].Type = "BIOS", []string{"TDX Module", "Early Microcode Update", "SGX Late Microcode Update"}[k%3]
+					}
+				}
+			}
+		}
 		// other spellings of the first level's status: only Intel's own spelling is that status
 		if sp := c.Choose("l1.status-spelling", 5); sp != 0 {
 			st := statuses[l1s]
